@@ -138,7 +138,7 @@ fn check(input: &In, case: &mut Case) -> Result<(), Fail> {
 /// followed by a new name that is used twice
 fn enum_many_names(_t: Tier, shard: usize, n: usize, f: &mut dyn FnMut((u16, u8)) -> bool) {
     let mut i = 0;
-    for k in [0u16, 1, 8, 16, 31, 32, 33, 34, 40, 64, 100] {
+    for k in crate::gen::sizes_u16(&[0u16, 1, 8, 16, 31, 32, 33, 34, 40, 64, 100], 130) {
         for labels in [127u8, 60, 10] {
             i += 1;
             if mine(i, shard, n) && !f((k, labels)) {
